@@ -242,7 +242,7 @@ class Fn:
             elif isinstance(r, ast.Name) and env.get(r.id) == 'sentinel' and ta == 'val':
                 text = f'(py_is_skip {a})'
             elif rs == 'None' and ta == 'optZ':
-                text = f'(negb (is_some {a}))'
+                return (f'(is_some {a})' if isinstance(op, ast.IsNot) else f'(negb (is_some {a}))'), 'bool'
             else:
                 gap(n, f'identity test of {ta}')
             return (f'(negb {text})' if isinstance(op, ast.IsNot) else text), 'bool'
